@@ -229,6 +229,15 @@ func (s *serfQueries) sendKeyResponse(q *Query, resp *nodeKeyResponse) {
 	}
 }
 
+// decodeKeyRequest decodes the key request carried in the payload of a key
+// query, which is prefixed with a message type byte.
+func decodeKeyRequest(payload []byte, req *keyRequest) error {
+	if len(payload) < 1 {
+		return fmt.Errorf("missing key request")
+	}
+	return decodeMessage(payload[1:], req)
+}
+
 // handleInstallKey is invoked whenever a new encryption key is received from
 // another member in the cluster, and handles the process of installing it onto
 // the memberlist keyring. This type of query may fail if the provided key does
@@ -239,7 +248,7 @@ func (s *serfQueries) handleInstallKey(q *Query) {
 	keyring := s.serf.config.MemberlistConfig.Keyring
 	req := keyRequest{}
 
-	err := decodeMessage(q.Payload[1:], &req)
+	err := decodeKeyRequest(q.Payload, &req)
 	if err != nil {
 		s.logger.Printf("[ERR] serf: Failed to decode key request: %v", err)
 		goto SEND
@@ -281,7 +290,7 @@ func (s *serfQueries) handleUseKey(q *Query) {
 	keyring := s.serf.config.MemberlistConfig.Keyring
 	req := keyRequest{}
 
-	err := decodeMessage(q.Payload[1:], &req)
+	err := decodeKeyRequest(q.Payload, &req)
 	if err != nil {
 		s.logger.Printf("[ERR] serf: Failed to decode key request: %v", err)
 		goto SEND
@@ -321,7 +330,7 @@ func (s *serfQueries) handleRemoveKey(q *Query) {
 	keyring := s.serf.config.MemberlistConfig.Keyring
 	req := keyRequest{}
 
-	err := decodeMessage(q.Payload[1:], &req)
+	err := decodeKeyRequest(q.Payload, &req)
 	if err != nil {
 		s.logger.Printf("[ERR] serf: Failed to decode key request: %v", err)
 		goto SEND
